@@ -535,8 +535,12 @@ func rootsOf(v ssa.Value) []Root {
 			walk(x.X)
 		case *ssa.Convert:
 			tx, tr := x.X.Type(), x.Type()
-			if (isString(tx) && isByteSlice(tr)) || (isByteSlice(tx) && isString(tr)) {
-				set[Root{"fresh", "string/[]byte conversion"}] = true // always a copy
+			if isString(tx) && isByteSlice(tr) {
+				set[Root{"fresh", "string→[]byte conversion"}] = true // always a copy
+				return
+			}
+			if isByteSlice(tx) && isString(tr) {
+				set[Root{"fresh", "[]byte→string conversion"}] = true // a copy, but immutable: see StringToBinary
 				return
 			}
 			walk(x.X)
@@ -623,6 +627,16 @@ func callRoots(c *ssa.Call, idx int, set map[Root]bool, walk func(ssa.Value)) {
 		set[Root{"fresh", "mcache.Malloc"}] = true
 	case pp == pkgSpan && cal.Name() == "Copy":
 		set[Root{"fresh", "span.Copy"}] = true
+	case pp == modPath+"/unsafex" && cal.Name() == "StringToBinary":
+		// a writable view of its argument: strings made by conversion are immutable values the
+		// runtime may share (empty and one-byte strings), constants live in read-only memory
+		for _, r := range rootsOf(com.Args[0]) {
+			if (r.Kind == "fresh" && r.Name == "[]byte→string conversion") || r.Kind == "const" {
+				set[Root{"strview", "writable []byte view of an immutable string (" + r.Name + ")"}] = true
+				continue
+			}
+			set[r] = true
+		}
 	case pp == modPath+"/unsafex":
 		// zero-copy conversions alias exactly their argument
 		walk(com.Args[0])
